@@ -355,11 +355,18 @@ func (p *Program) Compile() (*Compiled, error) {
 	if err != nil {
 		return nil, err
 	}
-	nv := (c.nextV + 3) / 4 * 4
+	nv := (c.nextV+3)/4*4 + p.PadVGPR/4*4
+	if nv > 256 {
+		nv = 256
+	}
+	ns := numSGPR + p.PadSGPR
+	if ns > 102 {
+		ns = 102
+	}
 	return &Compiled{
 		Code:      code,
 		NumVGPR:   nv,
-		NumSGPR:   numSGPR,
+		NumSGPR:   ns,
 		LDSBytes:  c.nLDS * int(wgItems) * 4,
 		KernargSz: 32,
 		Listing:   c.list,
